@@ -300,6 +300,29 @@ fn judge(vals: &[Vec<u8>], strict: bool) -> Option<(&'static str, String)> {
             }
         }
     }
+    // independence inside one value (owned-rng histories only, so the verdict is a fixed
+    // function of the seed): a value assembled from several fields (key || context, ...) must
+    // not contain the same 8 random bytes twice at non-overlapping offsets
+    if strict {
+        for (ci, v) in vals.iter().enumerate() {
+            if v.len() < 24 {
+                continue;
+            }
+            let mut first: std::collections::HashMap<[u8; 8], usize> = std::collections::HashMap::new();
+            for i in 0..=v.len() - 8 {
+                let w: [u8; 8] = v[i..i + 8].try_into().unwrap();
+                match first.get(&w) {
+                    Some(&j) if i >= j + 8 => {
+                        return Some(("reused-bytes", format!("call {}: bytes {}..{} of the returned value repeat bytes {}..{} ({})", ci + 1, i, i + 8, j, j + 8, hx(&w))));
+                    }
+                    Some(_) => {}
+                    None => {
+                        first.insert(w, i);
+                    }
+                }
+            }
+        }
+    }
     if vals.len() >= 64 && vals.iter().all(|v| v.len() == len) {
         for pos in 0..len {
             if vals.iter().all(|v| v[pos] == vals[0][pos]) {
@@ -349,7 +372,7 @@ pub fn run() -> i32 {
     let seed = ctx.seed;
     let n = ctx.tier.pick(64usize, 512);
     let es = entries();
-    ctx.rule = format!("bounded exhaustive call histories over the inventory of {} randomised entry points: every entry point alone x {} calls; every ordered pair (a,b) interleaved a,b,a,b,a,b; every triple through the hub copy_randombytes; a size sweep of randombytes_buf(n) and copy_randombytes(n) for every n up to 1100 (4200 thorough) x 64 calls; each history under (i) an owned deterministic RNG (seam H3: distinct, never-zero stream per request) and (ii) the production OsRng; oracle on the returned values only: within a history no value of an entry point repeats, none is all-zero, no byte position is constant across >= 64 calls; non-trivial = history executed; the source tree is scanned for randomness call sites not covered by the inventory (reported, not alarmed)", es.len(), n);
+    ctx.rule = format!("bounded exhaustive call histories over the inventory of {} randomised entry points: every entry point alone x {} calls; every ordered pair (a,b) interleaved a,b,a,b,a,b; every triple through the hub copy_randombytes; a size sweep of randombytes_buf(n) and copy_randombytes(n) for every n up to 1100 (4200 thorough) x 64 calls; each history under (i) an owned deterministic RNG (seam H3: distinct, never-zero stream per request) and (ii) the production OsRng; oracle on the returned values only: within a history no value of an entry point repeats, none is all-zero, no byte position is constant across >= 64 calls, and (owned-rng histories) no returned value contains the same 8 bytes twice at non-overlapping offsets (fields of one value must come from disjoint draws; coincidence probability < 2^-40 per run, and the verdict is a fixed function of the seed); non-trivial = history executed; the source tree is scanned for randomness call sites not covered by the inventory (reported, not alarmed)", es.len(), n);
     ctx.assume("statistical quality of the OS generator is not examined; under OsRng distinctness is asserted only for values >= 16 bytes (false-alarm probability < 2^-100)");
 
     let unmapped = scan_sites();
